@@ -18,9 +18,9 @@ BUDGET = {
     "thorough": {"runs": 200_000, "wall": 1500, "chunk": 100, "minimise": 250},
 }
 REQUIRED_PROBES = {"quick": ("uncatalogued", "malformed_body", "no_w", "user_callback_raises", "user_callback_ok",
-                             "burst", "system_zero"),
+                             "burst", "system_zero", "system_reused", "transport_secsi", "secsi_contention"),
                    "thorough": ("uncatalogued", "malformed_body", "no_w", "user_callback_raises", "user_callback_ok",
-                                "burst", "system_zero")}
+                                "burst", "system_zero", "system_reused", "transport_secsi", "secsi_contention")}
 EVIDENCE = {
     "level": "exploration",
     "rule": ("seeded sequences of primaries over the whole stream/function range (catalogued with inherited or "
@@ -44,6 +44,8 @@ SCHEDS = [
     {"policy": "pct", "d": 2, "horizon": 3000, "preempt": "line"},
     {"policy": "rr", "q": 3, "preempt": "line"},
     {"policy": "random", "p": 0.2, "preempt": "sync"},
+    {"policy": "random", "p": 0.5, "preempt": "sync"},
+    {"policy": "pct", "d": 2, "horizon": 150, "preempt": "sync"},
 ]
 
 # well-formed samples of host->equipment primaries with an inherited equipment handler
@@ -53,7 +55,7 @@ def _equipment_samples():
         (2, 13): rc.ls(), (2, 15): rc.ls(), (2, 17): None, (2, 29): rc.ls(),
         (2, 33): rc.ls(rc.u4(1), rc.ls()), (2, 35): rc.ls(rc.u4(1), rc.ls()),
         (2, 37): rc.ls(rc.boolean(True), rc.ls()), (2, 41): rc.ls(rc.a("NOPE"), rc.ls()),
-        (5, 3): rc.ls(rc.b(0x80), rc.u4(99)), (5, 5): rc.u4(), (5, 7): None, (6, 15): rc.u4(1),
+        (5, 3): rc.ls(rc.b(0x80), rc.u4(99)), (5, 5): rc.ls(), (5, 7): None, (6, 15): rc.u4(1),
     }
 
 
@@ -80,13 +82,17 @@ def gen_plan(rng, tier, index):
         cat = rng.choice(["inherited", "inherited", "user_ok", "user_raise", "user_self", "user_none", "nocb", "uncat"])
         body = rng.choice(["sample", "sample", "empty", "trunc", "random", "wrongfmt", "overlong"])
         w = rng.random() < 0.75
-        sysk = rng.choice(["seq", "seq", "seq", "zero", "max", "rand"])
+        sysk = rng.choice(["seq", "seq", "seq", "zero", "max", "rand", "reuse", "reuse"])
         ops.append([cat, rng.randrange(1000), body, w, sysk, rng.getrandbits(24)])
     plan = {"role": role, "active": rng.random() < 0.3, "ops": ops, "burst": rng.choice([1, 1, 2, 4, 8]),
             "stagger": rng.choice([0, 1e-4, 3e-4, 1e-3, 5e-3, 2e-2]),
             "stagger_steps": rng.choice([0, 0, 150, 600, 1500]),
             "noise": rng.random() < 0.3, "latency": rng.choice([0.0, 0.0005, 0.01]),
             "initial_control": rng.choice(["ATTEMPT_ONLINE", "EQUIPMENT_OFFLINE", "ONLINE", "HOST_OFFLINE"])}
+    if role == "host" and rng.random() < 0.5:
+        # the same handlers over the SECS-I transport (the library is the host = contention slave; the scripted peer is
+        # the equipment and wins ENQ contention, so replies of the library can collide with the next primary)
+        plan["transport"] = "secsi"
     sched = dict(rng.choice(SCHEDS))
     sched["seed"] = rng.getrandbits(48)
     plan["sched"] = sched
@@ -110,14 +116,22 @@ def run(sim, plan):
     role = plan["role"]
     sim.make_net(latency=plan["latency"])
     kw = {"initial_control_state": plan["initial_control"]} if role == "equipment" else {}
-    env = gemenv.GemEnv(sim, role=role, active=plan["active"], t3=3.0, **kw)
+    transport = plan.get("transport", "hsms")
+    secsi = transport == "secsi"
+    line = sim.make_line(a="SIMA", b="SIMB") if secsi else None
+    if secsi:
+        sim.probe("transport_secsi")
+    env = gemenv.GemEnv(sim, role=role, active=plan["active"], t3=3.0, transport=transport, line=line, **kw)
     handler = env.handler
     user_log = []
 
     # harness-registered callbacks ---------------------------------------------------------------------------
     def make_cb(kind):
         def cb(h, message):
-            user_log.append((kind, message.header.system))
+            # what the callback did is recorded per call: "returned" (a secondary), "sent" (answered by itself),
+            # "none" or "raised"
+            rec = {"kind": kind, "system": message.header.system, "did": "raised"}
+            user_log.append(rec)
             if kind == "user_raise":
                 raise RuntimeError("callback failed")
             s, f = message.header.stream, message.header.function
@@ -126,15 +140,20 @@ def run(sim, plan):
             if klass is not None:
                 try:
                     secondary = klass()
+                    secondary.encode()      # some default objects cannot be encoded (S7F6): then the callback fails
                 except Exception:  # noqa: BLE001
                     secondary = None
             if secondary is None:
                 raise AssertionError("harness: no secondary class")
             if kind == "user_ok":
+                rec["did"] = "returned"
                 return secondary
             # user_self / user_none: the callback answers by itself when a reply is expected and returns None
             if message.header.require_response:
                 h.send_response(secondary, message.header.system)
+                rec["did"] = "sent"
+            else:
+                rec["did"] = "none"
             return None
         return cb
 
@@ -167,6 +186,17 @@ def run(sim, plan):
             v = 0x60000000 + salt
             if v not in used_systems:
                 return v
+        if kind == "reuse":
+            # system bytes only have to be unique among open transactions: take those of a transaction of an earlier
+            # group that is over (E37 7.x / E5: "unique ... for open transactions")
+            cands = [j for j in injected if j["group"] < group_no["n"] and "end" not in j
+                     and j["system"] not in (0, 0xFFFFFFFF)
+                     and not any(k["system"] == j["system"] for k in injected if k["group"] == group_no["n"])]
+            if cands:
+                old = cands[salt % len(cands)]
+                old["end"] = len(peer.inbox)
+                sim.probe("system_reused")
+                return old["system"]
         seq["n"] += 1
         return gemenv.PEER_SYS_BASE + 0x100 + seq["n"]
 
@@ -189,10 +219,16 @@ def run(sim, plan):
         return bytes([0x21, 0x05, 0x01]), False  # overlong: binary item announcing 5 bytes, 1 present
 
     ops = plan["ops"]
+    group_no = {"n": 0}
+
+    def replies_to(inj):
+        return [fr for fr in peer.inbox[inj["mark"]:inj.get("end")] if fr.system == inj["system"]]
+
     i = 0
     while i < len(ops):
         group = ops[i:i + plan["burst"]]
         i += len(group)
+        group_no["n"] += 1
         stag = {"n": 0}
         if len(group) > 1:
             sim.probe("burst")
@@ -235,16 +271,22 @@ def run(sim, plan):
             else:
                 hp.send(fr, delay=plan["latency"] + plan.get("stagger", 0) * (stag["n"] - 1))
             injected.append({"system": system, "s": s, "f": f, "w": w, "cat": cat, "body": body_kind,
-                             "well_formed": well_formed, "header": rc.data(s, f, w, system, body).header_bytes})
+                             "group": group_no["n"], "mark": len(peer.inbox),
+                             "has_cb": hasattr(handler, f"_on_s{s:02d}f{f:02d}") or (s, f) in user_kinds.values(),
+                             "well_formed": well_formed,
+                             "header": rc.data(s, f, w, system, body).header_bytes if not secsi else
+                             rc.split_message(0, True, w, s, f, system, body)[0].encode()[1:11]})
             if plan["noise"]:
                 # an unsolicited secondary between the primaries (not judged)
                 peer.send_primary(1, 2, rc.ls(), False, system=0x7A000000 + len(injected))
+        if len(group) > 1:
+            sim.focus(2)
         sim.advance(0.3 + plan.get("stagger", 0) * len(group))
         # bounded liveness: at this quiescent point every W primary injected so far has its reply (an answer that only
         # appears when later traffic arrives is no answer if none follows)
         for inj in injected:
             if inj["w"] and not inj.get("seen") :
-                if any(fr.system == inj["system"] for fr in peer.inbox):
+                if replies_to(inj):
                     inj["seen"] = True
                 elif inj["cat"] not in ("user_none",):
                     sim.violation("C08.R1", f"S{inj['s']}F{inj['f']}W #{inj['system']:#x} ({inj['cat']}) was still unanswered "
@@ -260,7 +302,7 @@ def run(sim, plan):
         cats.add((inj["cat"], inj["body"], inj["w"]))
         if not inj["well_formed"] or inj["cat"] in ("uncat", "user_raise"):
             nontrivial = True
-        out = [fr for fr in peer.inbox if fr.system == inj["system"]]
+        out = replies_to(inj)
         desc = f"S{inj['s']}F{inj['f']}{'W' if inj['w'] else ''} #{inj['system']:#x} ({inj['cat']}, body {inj['body']})"
         if len(out) > 1:
             sim.violation("C08.R3", f"{desc} was answered {len(out)} times: {out}", sig="C08.R3|answered-twice")
@@ -282,11 +324,45 @@ def run(sim, plan):
             if not ok:
                 sim.violation("C08.R1", f"{desc} was answered with S{fr.stream}F{fr.function}, which is neither the "
                               "secondary, the stream's F0 abort nor S9F5", sig="C08.R1|wrong-reply-type")
+            # which of the three it has to be
+            got = (fr.stream, fr.function)
+            if inj["cat"] == "inherited" and not inj["has_cb"]:
+                want, what = (9, 5), "S9F5 (no callback)"
+            elif inj["cat"] == "inherited":
+                # a well-formed request is answered by its secondary; a malformed one by that or by the abort
+                want, what = ((inj["s"], inj["f"] + 1) if inj["well_formed"] else None), "the secondary of the callback"
+            elif inj["cat"] in user_kinds:
+                # the harness's own callback: the k-th call for these system bytes belongs to the k-th injection
+                same = [j for j in injected if j["system"] == inj["system"] and j["cat"] in user_kinds]
+                calls = [r for r in user_log if r["system"] == inj["system"]]
+                k = same.index(inj)
+                did = calls[k]["did"] if k < len(calls) and len(calls) == len(same) else None
+                if did in ("returned", "sent"):
+                    want, what = (inj["s"], inj["f"] + 1), f"the secondary the callback {did}"
+                elif did == "raised":
+                    want, what = (inj["s"], 0), "the stream's function 0 (callback failed)"
+                else:
+                    want = None
+            elif inj["cat"] in ("nocb", "uncat"):
+                want, what = (9, 5), "S9F5 (no callback)"
+            else:
+                want = None
+            if want is not None and got != want:
+                sim.violation("C08.R1", f"{desc} was answered with S{got[0]}F{got[1]}, expected {what}",
+                              sig=f"C08.R1|reply-kind|{inj['cat']}")
         else:
-            judged = inj["cat"] in ("user_none", "user_self") or (inj["cat"] == "inherited" and inj["well_formed"])
+            did = None
+            if inj["cat"] in user_kinds:
+                same = [j for j in injected if j["system"] == inj["system"] and j["cat"] in user_kinds]
+                calls = [r for r in user_log if r["system"] == inj["system"]]
+                if len(calls) == len(same):
+                    did = calls[same.index(inj)]["did"]
+            judged = did == "none" or (inj["cat"] == "inherited" and inj["well_formed"])
             if judged and out:
                 sim.violation("C08.R2", f"{desc} carries no W-bit and was handled without error, but a reply "
                               f"S{out[0].stream}F{out[0].function} was sent", sig=f"C08.R2|reply-without-w|{inj['cat']}",
                               stop=False)
+    if secsi and env.hp.peer.contentions:
+        sim.probe("secsi_contention")
     sim.nontrivial = nontrivial
-    sim.abstract = (role, sorted(cats)[:12], plan["burst"], plan["sched"]["policy"])
+    sim.abstract = (role, transport, sorted(cats)[:12], plan["burst"], plan["sched"]["policy"])
